@@ -134,6 +134,8 @@ def normalize(case):
             "hascompose": False, "compose": [],
         }]
         case["top"] = 1
+    for sd in case["sdefs"]:
+        sd.setdefault("objs", [])     # behaviour definitions (0: none) of the objects its setup block creates
     if "orcmax" not in case:
         case["orcmax"], case["orcalt"] = _orc_bounds(case)
     return case
@@ -261,7 +263,12 @@ def to_scenic(case):
         lines.append(f"scenario {sname(s)}():")
         for c in sd["pre"]:
             lines.append(f"    precondition: {_cond(c)}")
-        body = (objs if s == case["top"] else []) + _setup_lines(sd, name)
+        own = []
+        if s != case["top"]:
+            for j, d in enumerate(sd["objs"]):
+                b = f", with behavior {name(d)}()" if d else ""
+                own.append(f"new Object at ({10 * j}, {7 * s}, 0), with allowCollisions True, with requireVisible False{b}")
+        body = (objs if s == case["top"] else own) + _setup_lines(sd, name)
         lines.append("    setup:")
         lines += ["        " + x for x in (body or ["pass"])]
         if sd["hascompose"]:
@@ -302,7 +309,7 @@ def make_simulator(vlog, sched):
 
     class LogSimulation(DummySimulation):
         def createObjectInSimulator(self, obj):
-            vlog.EVENTS.append(["create", self.scene.objects.index(obj) + 1])
+            vlog.EVENTS.append(["create", self.objects.index(obj) + 1])   # (already appended to the simulation's list)
 
         def scheduleForAgents(self):
             t = self.currentTime
